@@ -170,6 +170,91 @@ pub fn run(thorough: bool, seed: u64, _replay: Option<String>) -> Report {
             rep.fail("oracle", "C12:serial-call-after-herd-differs", &format!("round {}", round), &pool[k].bytes, Some(&pool[k].sett), "herd");
         }
     }
+    // first sight: everything above was answered serially once before the threads met it, so work a process does only
+    // the first time it sees something (resolving a declared label, filling a table on demand) was done without
+    // competition. Here every round brings a document nobody has seen – a new spelling of a declared label (case
+    // pattern, alias, unknown token), new content – to all threads at once; the serial answer is computed afterwards
+    {
+        let labels: [(&str, &[&str]); 8] = [
+            ("windows-1251", &["windows-1251", "cp1251", "x-cp1251"]),
+            ("iso-8859-1", &["iso-8859-1", "latin1", "l1", "iso_8859-1", "iso8859-1"]),
+            ("windows-1252", &["windows-1252", "cp1252", "x-cp1252"]),
+            ("koi8-r", &["koi8-r", "koi8_r", "koi"]),
+            ("iso-8859-7", &["iso-8859-7", "greek", "greek8", "iso_8859-7"]),
+            ("iso-8859-2", &["iso-8859-2", "latin2", "l2"]),
+            ("utf-8", &["utf-8", "utf8", "unicode-1-1-utf-8"]),
+            ("shift_jis", &["shift_jis", "sjis", "ms_kanji", "x-sjis"]),
+        ];
+        let texts = [("russian", 0usize), ("french", 1), ("french", 2), ("russian", 3), ("greek", 4), ("polish", 5), ("greek", 6), ("japanese", 7)];
+        let n_first = if thorough { 48 } else { 14 };
+        for r in 0..n_first {
+            let (tname, li) = texts[r % texts.len()];
+            let (enc, spellings) = labels[li];
+            let base = match TEXTS.iter().find(|(n, _)| *n == tname) { Some(t) => t.1, None => TEXTS[1].1 };
+            let spelling = spellings[(r / texts.len()) % spellings.len()];
+            // a case pattern nobody used before: bits of the round number (plus the seed) choose upper / lower
+            let bits = (r as u64).wrapping_mul(0x9e37).wrapping_add(seed.wrapping_mul(77)) | 1;
+            let label: String = if r % 7 == 6 {
+                format!("x-unknown-{}-{}", seed, r)
+            } else {
+                spelling.chars().enumerate().map(|(i, c)| if (bits >> (i % 60)) & 1 == 1 { c.to_ascii_uppercase() } else { c }).collect()
+            };
+            let k = 200 + 37 * r;
+            let body = stretch(&mut rng, base, k);
+            let decl = match r % 3 { 0 => format!("<meta charset=\"{}\">\n", label), 1 => format!("<?xml version=\"1.0\" encoding=\"{}\"?>\n", label), _ => format!("# -*- coding: {} -*-\n", label) };
+            let mut bytes = decl.into_bytes();
+            bytes.extend(enc_bytes_lossy(&body, enc));
+            let case = Arc::new(Case { bytes, sett: Sett::default(), tag: format!("first-sight:{}", label) });
+            let n = [8usize, 16, 4, 32][r % 4];
+            let barrier = Arc::new(Barrier::new(n));
+            let handles: Vec<_> = (0..n)
+                .map(|_| {
+                    let case = case.clone();
+                    let barrier = barrier.clone();
+                    std::thread::spawn(move || {
+                        barrier.wait();
+                        let a = real_detect(&case.bytes, &case.sett);
+                        let b = real_detect(&case.bytes, &case.sett);
+                        (a, b)
+                    })
+                })
+                .collect();
+            let mut answers = vec![];
+            for h in handles {
+                rep.evaluations += 1;
+                rep.oracle_checked += 1;
+                match h.join() {
+                    Err(_) => rep.fail("oracle", "C12:thread-panicked", &format!("first-sight round {} with {} threads", r, n), &case.bytes, Some(&case.sett), &case.tag),
+                    Ok((a, b)) => {
+                        answers.push(a);
+                        answers.push(b);
+                    }
+                }
+            }
+            rep.count("herd:mode-first-sight");
+            let serial = real_detect(&case.bytes, &case.sett);
+            let cold = {
+                let ok = std::panic::catch_unwind(|| vh::flush_caches());
+                if ok.is_err() {
+                    rep.fail("oracle", "C12:poisoned-state-after-herd", &format!("first-sight round {}", r), &case.bytes, Some(&case.sett), &case.tag);
+                }
+                real_detect(&case.bytes, &case.sett)
+            };
+            if let Outcome::Panic(p) = &serial {
+                rep.fail("oracle", "C12:serial-call-after-herd-panics", &format!("first-sight round {} (label {}): {}", r, label, p), &case.bytes, Some(&case.sett), &case.tag);
+            }
+            if serial != cold {
+                rep.fail("oracle", "C12:serial-call-after-herd-differs", &format!("first-sight round {}: {} || on cold caches {}", r, serial.show(), cold.show()), &case.bytes, Some(&case.sett), &case.tag);
+            }
+            for got in answers {
+                if let Outcome::Panic(p) = &got {
+                    rep.fail("oracle", "C12:concurrent-call-panicked", &format!("first-sight round {} ({} threads, label {}): {}", r, n, label, p), &case.bytes, Some(&case.sett), &case.tag);
+                } else if got != cold {
+                    rep.fail("oracle", "C12:concurrent-answer-differs-from-serial", &format!("first-sight round {} ({} threads): {} || serial {}", r, n, got.show(), cold.show()), &case.bytes, Some(&case.sett), &case.tag);
+                }
+            }
+        }
+    }
     rep.sample(format!("{} rounds, thread counts {:?}, pool {} requests, cold caches each round, 2 calls per thread", rounds, thread_counts, pool.len()));
     rep.sample(format!("e.g. {} len={} -> {}", pool[0].sett.show(), pool[0].bytes.len(), reference[0].show().chars().take(100).collect::<String>()));
     rep.model_rounds = drv.requests;
